@@ -16,6 +16,23 @@ Two observation levels:
   others (the property promises nothing) are compared with the model op `predictdf` only;
 * several collections: the whole run (all collections, or the prefix up to the first one that
   cannot be scored) is compared with the model op `predictcolls`.
+
+Second audit pass (GAPS-C11.md, "Second pass"):
+
+* magnitude of the raw scores: every function case and every fold model with a decision function may
+  carry a scale 2^e and a common offset (all values stay exactly representable), so the anchors are
+  `close` relative to their magnitude or of tiny absolute size; on top of the formula / model
+  comparisons the real code is called on the un-scaled scores as well and must return the very same
+  floats (`C11_calib_rescale_invariant`); the transformation itself is cross-checked with the driver
+  ops `rescale` / `predictresc`;
+* further estimator forms under "exposes a decision function": the method reached through
+  `__getattr__` (a delegating wrapper), stored on the instance only, or present on the class but
+  withheld on the instance (sklearn's `available_if`: attribute access raises AttributeError);
+* input forms: 0/1 integer / float target arrays and Series at the function entry, brew on a
+  tab-separated file or a Parquet file with several row groups, pre-trained models listed in another
+  order than their folds, estimators returning float32;
+* trained mode + calibration error: the fold models (deep copies made inside brew) register
+  themselves when fitted, so fold membership is recovered also when brew raises.
 """
 from __future__ import annotations
 
@@ -25,6 +42,7 @@ import json
 import math
 import shutil
 import tempfile
+import types
 import zlib
 from fractions import Fraction
 from pathlib import Path
@@ -45,7 +63,10 @@ RULE = (
     "(rows with spectrum groups, folds 2..6, per-fold integer decision tables or a per-fold trained affine "
     "decision function, eval FDR, prediction chunk size incl. 1-3, workers, 1-2 collections, one estimator kind per "
     "fold model: decision_function / both / predict_proba-only in 3 shapes, uniform or mixed, label encodings "
-    "bool / +-1 / 0-1); distinct = distinct (rank "
+    "bool / +-1 / 0-1; second pass: scale 2^e and common offset of the scores per case / per fold model, 0/1 int "
+    "and float target arrays, decision_function through __getattr__ / on the instance / withheld by a "
+    "descriptor, TSV and multi-row-group Parquet files, permuted pre-trained model list, float32 estimator "
+    "output); distinct = distinct (rank "
     "pattern of scores, labels, direction, threshold) resp. (fold pattern, per-fold rank patterns, labels, "
     "threshold); non-trivial = some target accepted, at least one decoy, at least two distinct scores, or an "
     "error case with at least one target; thorough adds the exhaustive sweep over all score vectors over 3 "
@@ -231,13 +252,55 @@ def gen_case(rng, nmax=40):
     entry = rng.choice(ENTRIES)
     if entry != "func":
         sdt = "float64"
-    return dict(scores=scores, labels=labels, desc=desc, thr=thr or pick_thr(rng, sum(labels)), sdtype=sdt, entry=entry, pat=pat,
-                lkind=rng.choice(["bool", "pm1", "pm1", "01"]))
+    c = dict(scores=scores, labels=labels, desc=desc, thr=thr or pick_thr(rng, sum(labels)), sdtype=sdt, entry=entry, pat=pat,
+             lkind=rng.choice(["bool", "pm1", "pm1", "01"]))
+    # second pass: encoding of the target array handed to the module-level function (0/1 only: tdc refuses
+    # anything else in an array, and a Series is cast) and magnitude of the scores
+    c["tkind"] = rng.choice(TKINDS) if entry in ("func", "func-series") else "bool"
+    if rng.random() < 0.35:
+        apply_scale(c, *pick_scale(rng, sdt))
+    return c
+
+
+TKINDS = ["bool", "bool", "bool", "int01", "int8-01", "float01"]
+
+
+def pick_scale(rng, sdt):
+    """(e, off): scores become 2^e * (s + off); chosen so that every value, every difference and the mean of
+    two values stay exactly representable in the array's dtype"""
+    if sdt == "int64":
+        # qvalues.tdc casts integer scores to float32 (qvalues.py:106-107): an order embedding only below 2^24
+        # (C01 states its property for "small-integer dtype"; GAPS-C01 G1-d) -- larger integers are merged there
+        return 0, rng.choice([10 ** 6, -10 ** 6, 2 ** 23])
+    if sdt == "float32":
+        return rng.choice([-60, -30, -10, 0, 10, 40]), rng.choice([0, 0, 1024, -4096])
+    return (rng.choice([-300, -70, -40, -27, -12, 0, 10, 20, 40, 200]),
+            rng.choice([0, 0, 10 ** 4, 2 ** 20, 2 ** 30, -2 ** 27, 10 ** 9]))
+
+
+def apply_scale(c, e, off):
+    if e == 0 and off == 0:
+        return
+    c["base_scores"] = list(c["scores"])
+    c["scale"] = [e, off]
+    c["scores"] = [Fraction(2) ** e * (x + off) for x in c["scores"]]
+
+
+def target_array(labels, tkind):
+    if tkind == "int01":
+        return np.array([1 if b else 0 for b in labels], dtype=np.int64)
+    if tkind == "int8-01":
+        return np.array([1 if b else 0 for b in labels], dtype=np.int8)
+    if tkind == "float01":
+        return np.array([1.0 if b else 0.0 for b in labels], dtype=np.float64)
+    return np.array(labels, dtype=bool)
 
 
 def jsonable(c):
     d = dict(c)
     d["scores"] = [str(x) for x in c["scores"]]
+    if "base_scores" in c:
+        d["base_scores"] = [str(x) for x in c["base_scores"]]
     d["thr"] = str(c["thr"])
     return d
 
@@ -245,6 +308,8 @@ def jsonable(c):
 def from_json(d):
     c = dict(d)
     c["scores"] = [Fraction(x) for x in d["scores"]]
+    if "base_scores" in d:
+        c["base_scores"] = [Fraction(x) for x in d["base_scores"]]
     c["thr"] = Fraction(d["thr"])
     return c
 
@@ -264,9 +329,12 @@ class Tmp:
         shutil.rmtree(self.dir, ignore_errors=True)
 
 
-def write_table(df, path):
+def write_table(df, path, row_group_size=None):
     if path.suffix == ".parquet":
-        df.to_parquet(path, index=False)
+        if row_group_size:
+            df.to_parquet(path, index=False, row_group_size=row_group_size)
+        else:
+            df.to_parquet(path, index=False)
     else:
         df.to_csv(path, sep="\t", index=False)
 
@@ -297,7 +365,7 @@ def impl_calibrate(c, tmp):
     import mokapot.dataset as D
 
     s = np.array([float(x) for x in c["scores"]], dtype=c["sdtype"])
-    t = np.array(c["labels"], dtype=bool)
+    t = target_array(c["labels"], c.get("tkind", "bool"))
     thr = float(c["thr"])
     try:
         if c["entry"] == "func":
@@ -329,17 +397,24 @@ def wire_rows(c):
 
 
 def eval_cases(chk, cases, tmp):
-    lines = []
+    lines, start = [], []
     for c in cases:
         rows = wire_rows(c)
+        start.append(len(lines))
         lines.append(req("qspec", c["desc"], rows) if rows else "median []")
         lines.append(req("calib", c["desc"], c["thr"], rows))
         lines.append(req("calspec", c["desc"], c["thr"], rows))
+        if c.get("scale") and rows:
+            # the Lean transformation `rescaleRows` of the un-scaled rows (must be the rows sent above)
+            e, off = c["scale"]
+            lines.append(req("rescale", Fraction(2) ** e, Fraction(2) ** e * off,
+                             [[Fraction(x), bool(l)] for x, l in zip(c["base_scores"], c["labels"])]))
     resp = common.driver_batch(lines)
     for k, c in enumerate(cases):
-        qs = [a_rat(x) for x in dec(resp[3 * k])] if c["scores"] else []
-        model_raw = resp[3 * k + 1].strip()
-        t, d, vals = dec_spec(dec(resp[3 * k + 2]))
+        p0 = start[k]
+        qs = [a_rat(x) for x in dec(resp[p0])] if c["scores"] else []
+        model_raw = resp[p0 + 1].strip()
+        t, d, vals = dec_spec(dec(resp[p0 + 2]))
         thr_f = float(c["thr"])
         # a q-value on the float32/float64 rounding boundary of the threshold: not decided by the model
         if any((q_rounded(q) > thr_f) != (q > c["thr"]) for q, lab in zip(qs, c["labels"]) if lab):
@@ -363,6 +438,11 @@ def eval_cases(chk, cases, tmp):
         chk.count("f.ties", len(set(c["scores"])) < n)
         if c["entry"].startswith("ondisk"):
             chk.count("f.labels", c["lkind"])
+        else:
+            chk.count("f.targets-encoding", f"{c['entry']}:{c.get('tkind', 'bool')}")
+        sc = c.get("scale") or [0, 0]
+        chk.count("f.scale", f"2^{sc[0]}")
+        chk.count("f.offset", sc[1] if abs(sc[1]) < 10 ** 5 else f"{'-' if sc[1] < 0 else ''}2^{abs(sc[1]).bit_length() - 1}..")
         cls = ("error:no-accepted-target" if t is None else "nan:no-decoy" if d is None else
                "in-quantifier:t>d" if t > d else "outside:t=d" if t == d else "outside:t<d")
         chk.count("f.class", cls)
@@ -383,6 +463,20 @@ def eval_cases(chk, cases, tmp):
                 cl = clause_checks(c["scores"], got, t, d)
                 if cl:
                     viol = (cl, "clause violated on the returned scores")
+        if not viol and c.get("scale"):
+            # comparable across fold models: the real code on a*s + b must return what it returns on s
+            # (same floats: every intermediate value is exact, the one division sees the same quotient)
+            chk.count("f.scale-invariance-compared", cls)
+            if c["scores"]:
+                want = [[Fraction(x), bool(l)] for x, l in zip(c["scores"], c["labels"])]
+                back = dec(resp[p0 + 3])
+                back = back if back and isinstance(back[0], list) else [back]
+                if [[a_rat(r[0]), r[1] == "T"] for r in back] != want:
+                    chk.corr_break("rescale", dict(info, model=resp[p0 + 3][:500]))
+            kb, gb = impl_calibrate(dict(c, scores=c["base_scores"]), tmp)
+            if kb != kind or (kind == "ok" and not same_list(got, gb)):
+                viol = ("scale-invariance", f"scores returned for 2^{c['scale'][0]}*(s + {c['scale'][1]}) differ from "
+                        f"those returned for s: {[kb, gb if kb != 'ok' else [repr(x) for x in gb]]}")
         if viol:
             chk.spec_violation(f"calibrate:{viol[0]}:{c['entry']}",
                                dict(info, expected=dict(t=str(t), d=str(d), values=None if vals is None else
@@ -428,8 +522,11 @@ def exhaustive(chk, nmax, nvals, tmp):
 # ----------------------------------------------------------------------------
 # brew level
 # ----------------------------------------------------------------------------
-DF_KINDS = ("df", "both")
-PROBA_KINDS = ("proba1", "proba2", "probacol")
+# second pass: `dfgetattr` (decision_function reached through __getattr__, a delegating wrapper), `dfinst` (stored on
+# the instance only) expose one; `dfhidden` carries the name on the class but attribute access on the instance raises
+# AttributeError (sklearn's `available_if`), so it does NOT expose one and scores with predict_proba
+DF_KINDS = ("df", "both", "dfgetattr", "dfinst")
+PROBA_KINDS = ("proba1", "proba2", "probacol", "dfhidden")
 EST_KINDS = DF_KINDS + PROBA_KINDS
 
 
@@ -446,8 +543,11 @@ def recorder_class(kind="df"):
         `table` (row id -> raw score) is used when given (pre-trained mode); otherwise the
         raw output is `a * feature0 + b` with (a, b) derived from the training rows."""
 
-        def __init__(self, table=None):
+        REG = []  # every instance that was fitted (brew fits deep copies it does not hand out when it raises)
+
+        def __init__(self, table=None, odtype="float64"):
             self.table = table
+            self.odtype = odtype
 
         def _log(self):
             if not hasattr(self, "log_"):
@@ -460,14 +560,16 @@ def recorder_class(kind="df"):
             self.a_ = 1 + h % 3
             self.b_ = (h // 3) % 7 - 3
             self._log().append(("fit", None))
+            if not any(e is self for e in type(self).REG):
+                type(self).REG.append(self)
             return self
 
         def _raw(self, X):
             ids = [int(v) for v in X[:, 1]]
             self._log().append(("dec", ids))
             if self.table is not None:
-                return np.array([self.table[i] for i in ids], dtype=float)
-            return self.a_ * X[:, 0] + self.b_
+                return np.array([self.table[i] for i in ids], dtype=self.odtype)
+            return np.asarray(self.a_ * X[:, 0] + self.b_, dtype=self.odtype)
 
     class Recorder(Base):
         def decision_function(self, X):
@@ -500,8 +602,36 @@ def recorder_class(kind="df"):
         def predict_proba(self, X):
             return np.asarray(self._raw(X), dtype=float).reshape(-1, 1)
 
+    class RecorderGetattr(Base):
+        """a delegating wrapper: `decision_function` is not in the class, `__getattr__` supplies it"""
+
+        def __getattr__(self, name):
+            if name == "decision_function":
+                return self._raw
+            raise AttributeError(name)
+
+    class RecorderInst(Base):
+        """`decision_function` lives on the instance only"""
+
+        def __init__(self, table=None, odtype="float64"):
+            super().__init__(table=table, odtype=odtype)
+            self.decision_function = self._raw
+
+    class RecorderHidden(Base):
+        """the class carries the name, the instance withholds it (what sklearn's `available_if` does for a
+        pipeline / search / calibrated wrapper around a classifier without decision function): no decision
+        function is exposed, `Model` scores with predict_proba and brew must not calibrate"""
+
+        @property
+        def decision_function(self):
+            raise AttributeError("This 'RecorderHidden' has no attribute 'decision_function'")
+
+        def predict_proba(self, X):
+            return self._raw(X)
+
     return dict(df=Recorder, both=RecorderBoth, proba1=RecorderProba1, proba2=RecorderProba2,
-                probacol=RecorderProbaCol)[kind]
+                probacol=RecorderProbaCol, dfgetattr=RecorderGetattr, dfinst=RecorderInst,
+                dfhidden=RecorderHidden)[kind]
 
 
 def case_ests(bc):
@@ -572,21 +702,52 @@ def gen_brew_case(rng, small=False):
     both = rng.random() < 0.3
     # one estimator kind per fold model (brew.py:461-470 tests every model's own estimator)
     r = rng.random()
+    uniform_df = ("both" if both else "df") if rng.random() < 0.75 else rng.choice(["dfgetattr", "dfinst"])
     if mode == "trained":
         # one estimator is cloned for every fold: uniform by construction
-        ests = [("both" if both else "df") if r < 0.8 else rng.choice(PROBA_KINDS)] * k
+        ests = [uniform_df if r < 0.8 else rng.choice(PROBA_KINDS)] * k
     elif r < 0.6:
-        ests = ["both" if both else "df"] * k
+        ests = [uniform_df] * k
     elif r < 0.92:
         ests = [rng.choice(EST_KINDS) for _ in range(k)]
         ests[rng.randrange(k)] = rng.choice(DF_KINDS)
         ests[rng.choice([i for i in range(k) if not has_df(ests[i])] or [rng.randrange(k)])] = rng.choice(PROBA_KINDS)
     else:
         ests = [rng.choice(PROBA_KINDS)] * k
+    # ---- second pass --------------------------------------------------------------------------------
+    # dtype of what the estimators return (xgboost / skorch style float32), magnitude of every fold model's
+    # decision function (a fold model is only determined up to a positive affine map), file format, and the
+    # order in which the pre-trained models are listed (brew sorts them by their `fold` attribute)
+    odtype = "float32" if rng.random() < 0.12 else "float64"
+    scales = []
+    for f in range(k):
+        e, off = 0, 0
+        if mode == "pretrained" and has_df(ests[f]) and rng.random() < 0.4:
+            if odtype == "float32":
+                e, off = rng.choice([-40, -10, 0, 10, 30]), rng.choice([0, 0, 2048])
+            else:
+                e, off = (rng.choice([-300, -60, -30, -10, 0, 10, 30, 100]),
+                          rng.choice([0, 0, 10 ** 4, 2 ** 20, 2 ** 30, -2 ** 27]))
+        scales.append([e, off])
+    fmt = rng.choice(["parquet", "parquet", "parquet-rowgroups", "tsv"])
+    morder = list(range(k))
+    if mode == "pretrained" and rng.random() < 0.5:
+        rng.shuffle(morder)
+    # the `fold` attributes of the pre-trained models: brew only sorts by them (mostly 1..k as brew itself sets them)
+    foldattr = list(range(1, k + 1)) if rng.random() < 0.6 else sorted(rng.sample(range(0, 25), k))
     return dict(k=k, mode=mode, colls=colls, thr=thr,
                 chunk=chunk, workers=workers, seed=rng.randrange(10 ** 6),
                 both=both, ests=ests,
-                train_fdr=rng.choice([0.5, 1.0]))
+                train_fdr=rng.choice([0.5, 1.0]),
+                odtype=odtype, scales=scales, fmt=fmt, rowgroup=rng.choice([1, 2, 3, 5, 7, 16]), morder=morder,
+                foldattr=foldattr)
+
+
+def tab_value(bc, cl, f, i):
+    """raw output of fold model `f` on row `i` (pre-trained mode): 2^e * (table + off), exact"""
+    e, off = (bc.get("scales") or [[0, 0]] * bc["k"])[f]
+    v = cl["tables"][f][i]
+    return v if e == 0 and off == 0 else Fraction(2) ** e * (v + off)
 
 
 def coll_frame(cl):
@@ -611,8 +772,9 @@ def run_brew(bc, tmp):
     dss, frames = [], []
     for cl in bc["colls"]:
         df = coll_frame(cl)
-        path = tmp.path(".parquet")
-        write_table(df, path)
+        fmt = bc.get("fmt", "parquet")
+        path = tmp.path(".tsv" if fmt == "tsv" else ".parquet")
+        write_table(df, path, bc.get("rowgroup", 3) if fmt == "parquet-rowgroups" else None)
         frames.append(df)
         dss.append(ondisk(path, df, ["score", "rowid"], df[["ScanNr", "ExpMass", "Label"]].copy()))
     # fold membership as `_split` computes it with the generator state brew will use (cross-check only)
@@ -629,22 +791,26 @@ def run_brew(bc, tmp):
             split_ref.append(fold_of)
         except Exception as e:
             return dict(status="split-raises", error=f"{type(e).__name__}: {str(e)[:100]}", split_ref=[])
+    odtype = bc.get("odtype", "float64")
+    trained_cls = None
     if bc["mode"] == "pretrained":
         models = []
         for f in range(k):
             table = {}
             for cl in bc["colls"]:
-                for i, v in enumerate(cl["tables"][f]):
-                    table[i + cl["base"]] = float(v)
-            m = Model(recorder_class(ests[f])(table=table), scaler="as-is", override=True)
+                for i in range(len(cl["tables"][f])):
+                    table[i + cl["base"]] = float(tab_value(bc, cl, f, i))
+            m = Model(recorder_class(ests[f])(table=table, odtype=odtype), scaler="as-is", override=True)
             m.is_trained = True
             m.features = ["score", "rowid"]
-            m.fold = f + 1
+            m.fold = (bc.get("foldattr") or list(range(1, k + 1)))[f]
             models.append(m)
-        model_arg = models
+        # brew sorts the given models by their `fold` attribute: the order of the list must not matter
+        model_arg = [models[j] for j in bc.get("morder", range(k))]
     else:
-        model_arg = Model(recorder_class(ests[0])(), scaler="as-is", override=True, train_fdr=bc["train_fdr"], max_iter=2,
-                          rng=bc["seed"])
+        trained_cls = recorder_class(ests[0])
+        model_arg = Model(trained_cls(odtype=odtype), scaler="as-is", override=True, train_fdr=bc["train_fdr"],
+                          max_iter=2, rng=bc["seed"])
     old = brewmod.CHUNK_SIZE_ROWS_PREDICTION
     brewmod.CHUNK_SIZE_ROWS_PREDICTION = bc["chunk"]
     res = dict(status="ok", split_ref=split_ref)
@@ -671,6 +837,11 @@ def run_brew(bc, tmp):
         res["error"] = f"{type(e).__name__}: {str(e)[:300]}"
     finally:
         brewmod.CHUNK_SIZE_ROWS_PREDICTION = old
+    if mods is None and trained_cls is not None and res["status"] in ("calib-error", "empty-fold"):
+        # trained mode and brew raised: the fold models are deep copies that brew does not hand out; they
+        # registered themselves when they were fitted
+        mods = recover_models(trained_cls.REG, bc, split_ref)
+        res["recovered"] = mods is not None
     # fold membership and raw scores from the recorders
     if mods is not None:
         folds = [[None] * cl["n"] for cl in bc["colls"]]
@@ -690,9 +861,36 @@ def run_brew(bc, tmp):
                         dup = True
                     folds[ci][i] = f
                     cl = bc["colls"][ci]
-                    raw[ci][i] = cl["tables"][f][i] if bc["mode"] == "pretrained" else est.a_ * cl["feat"][i] + est.b_
+                    raw[ci][i] = tab_value(bc, cl, f, i) if bc["mode"] == "pretrained" else est.a_ * cl["feat"][i] + est.b_
         res["folds"], res["raw"], res["dup"] = folds, raw, dup
     return res
+
+
+def recover_models(reg, bc, split_ref):
+    """trained mode: which registered estimator is the model of which fold.  After its last `fit` a fold model
+    first scores its whole training set (end of `Model.fit`); the training set of fold f is everything but the
+    test rows of fold f (taken from `_split` with the generator state brew used).  None if that does not identify
+    one fitted estimator per fold (some fold model was not trained to the end: training failed)."""
+    k = bc["k"]
+    if len(split_ref) != len(bc["colls"]) or any(sr is None for sr in split_ref):
+        return None
+    all_ids = {i + cl["base"] for cl in bc["colls"] for i in range(cl["n"])}
+    test = [{i + cl["base"] for ci, cl in enumerate(bc["colls"]) for i in range(cl["n"]) if split_ref[ci][i] == f}
+            for f in range(k)]
+    out = {}
+    for est in reg:
+        log = getattr(est, "log_", [])
+        last_fit = max([i for i, (kind, _) in enumerate(log) if kind == "fit"], default=-1)
+        decs = [ids for kind, ids in log[last_fit + 1:] if kind == "dec"]
+        if last_fit < 0 or not decs or not hasattr(est, "a_"):
+            return None
+        fs = [f for f in range(k) if set(decs[0]) == all_ids - test[f]]
+        if len(fs) != 1 or fs[0] in out:
+            return None
+        out[fs[0]] = est
+    if len(out) != k:
+        return None
+    return [types.SimpleNamespace(fold=f + 1, estimator=out[f]) for f in range(k)]
 
 
 def brew_key(bc, folds, ci):
@@ -728,13 +926,14 @@ def seen_prefix(bc, res):
 
 
 def eval_brew(chk, bcs, tmp):
-    results, lines, index, cindex = [], [], [], {}
+    results, lines, index, cindex, rindex, gindex = [], [], [], {}, {}, {}
     for bi, bc in enumerate(bcs):
         res = run_brew(bc, tmp)
         results.append(res)
         if "folds" not in res:
             continue
         flags = [has_df(e) for e in case_ests(bc)]
+        scaled = bc["mode"] == "pretrained" and any(e != 0 or off != 0 for e, off in bc.get("scales") or [])
         wire_colls = []
         for ci, cl in enumerate(bc["colls"]):
             folds, raw = res["folds"][ci], res["raw"][ci]
@@ -750,7 +949,20 @@ def eval_brew(chk, bcs, tmp):
             for f in range(bc["k"]):
                 fr = [[Fraction(r), bool(l)] for ff, r, l in zip(folds, raw, cl["labels"]) if ff == f]
                 lines.append(req("qspec", True, fr) if fr else "median []")
+            if scaled:
+                # the same run described as: un-scaled fold tables + one (a, b) per fold model, transformed by the
+                # Lean `rescaleFolds` (C11_gate_rescale_invariant speaks about exactly this transformation)
+                rindex[(bi, ci)] = len(lines)
+                base_rows = [[f, Fraction(cl["tables"][f][i]), bool(l)]
+                             for i, (f, l) in enumerate(zip(folds, cl["labels"]))]
+                lines.append(req("predictresc", min(bc["chunk"], 10 ** 6), flags, bc["thr"],
+                                 [[Fraction(2) ** e, Fraction(2) ** e * off] for e, off in bc["scales"]], base_rows))
             wire_colls.append(rows)
+        if bc["mode"] == "pretrained":
+            # the models as the caller listed them -> the flags `_predict` sees fold by fold (Lean `gateFlags`)
+            fa = bc.get("foldattr") or list(range(1, bc["k"] + 1))
+            gindex[bi] = len(lines)
+            lines.append(req("gateflags", [[fa[j], flags[j]] for j in bc.get("morder", range(bc["k"]))]))
         nseen = seen_prefix(bc, res)
         if nseen:
             # the whole run: every collection scored so far, in the order given to brew
@@ -764,6 +976,25 @@ def eval_brew(chk, bcs, tmp):
         ests = case_ests(bc)
         flags = [has_df(e) for e in ests]
         info = dict(case=bjson(bc), status=res["status"], error=res.get("error"))
+        odt = bc.get("odtype", "float64")
+        chk.count("b.format", bc.get("fmt", "parquet"))
+        chk.count("b.output-dtype", odt)
+        if bc["mode"] == "pretrained":
+            chk.count("b.model-list", "in fold order" if list(bc.get("morder", range(k))) == list(range(k))
+                      else "permuted")
+        for e, off in bc.get("scales") or []:
+            chk.count("b.fold-scale", f"2^{e}")
+            chk.count("b.fold-offset", off if abs(off) < 10 ** 5 else f"{'-' if off < 0 else ''}2^{abs(off).bit_length() - 1}..")
+        if bc["mode"] == "pretrained":
+            chk.count("b.fold-attributes", "1..k" if (bc.get("foldattr") or list(range(1, k + 1))) == list(range(1, k + 1))
+                      else "other increasing numbers")
+        if bi in gindex:
+            gf = dec(resp[gindex[bi]])
+            gf = [x == "T" for x in (gf if isinstance(gf, list) else [gf])]
+            if gf != flags:
+                chk.corr_break("gateflags", dict(info, model=resp[gindex[bi]].strip(), harness=flags))
+        if "recovered" in res:
+            chk.count("b.trained-mode-error", "fold models recovered" if res["recovered"] else "not recovered")
         chk.count("b.mode", bc["mode"])
         chk.count("b.folds", k)
         chk.count("b.status", res["status"])
@@ -850,6 +1081,10 @@ def eval_brew(chk, bcs, tmp):
             if any(t is None and flags[f] for f, (t, _, _) in enumerate(spec)):
                 any_noacc = True
             per_coll.append((model_raw, spec, folds, raw))
+            if (bi, ci) in rindex and resp[rindex[(bi, ci)]].strip() != model_raw:
+                # harness scaling and Lean `rescaleFolds` disagree (or the op is broken): not a statement about mokapot
+                chk.corr_break("predictresc", dict(info, collection=ci, model=model_raw[:300],
+                                                   rescaled=resp[rindex[(bi, ci)]].strip()[:300]))
             c_ = min(bc["chunk"], len(folds))
             if any(set(range(k)) - set(folds[i:i + c_]) for i in range(0, len(folds), c_)):
                 lacks = True
@@ -908,8 +1143,10 @@ def eval_brew(chk, bcs, tmp):
                     continue
                 chk.count("b.fold-class", "in-quantifier")
                 gf = [got[i] for i in idx]
-                exp = [fl(v) for v in vals]
-                if not same_list(gf, exp):
+                exp = [fl(v, odt) for v in vals]
+                # float32 estimator output: the property does not say in which precision the one division is
+                # carried out -- the fold's scores may be the float32 or the float64 rounding of the exact quotient
+                if not same_list(gf, exp) and not (odt == "float32" and same_list(gf, [fl(v) for v in vals])):
                     viol = ("formula", ci, f)
                     break
                 cl_ = clause_checks([Fraction(raw[i]) for i in idx], gf, t, d)
@@ -937,8 +1174,9 @@ def eval_brew(chk, bcs, tmp):
                 chk.corr_break(op, dict(info, collection=ci, model=model_raw, impl=res["scores"][ci]))
                 continue
             m = dec(model_raw)
-            mv = [dec_xr(x) for x in (m if isinstance(m, list) else [m])]
-            if not same_list(res["scores"][ci], mv):
+            mv = [dec_xr(x, odt) for x in (m if isinstance(m, list) else [m])]
+            if not same_list(res["scores"][ci], mv) and not (
+                    odt == "float32" and same_list(res["scores"][ci], [dec_xr(x) for x in (m if isinstance(m, list) else [m])])):
                 chk.corr_break(op, dict(info, collection=ci, folds=folds, raw=raw, model=model_raw[:1000],
                                         impl=res["scores"][ci]))
         # the run as a whole: one score vector per collection, in the order given
@@ -947,7 +1185,8 @@ def eval_brew(chk, bcs, tmp):
         else:
             mc = dec_colls(colls_model, [len(p[3]) for p in per_coll])
             if mc is None or len(mc) != len(res["scores"]) or \
-                    not all(same_list(g, [dec_xr(x) for x in m]) for g, m in zip(res["scores"], mc)):
+                    not all(same_list(g, [dec_xr(x, odt) for x in m]) or
+                            (odt == "float32" and same_list(g, [dec_xr(x) for x in m])) for g, m in zip(res["scores"], mc)):
                 chk.corr_break("predictcolls", dict(info, folds=res["folds"], model=colls_model[:1000],
                                                     impl=res["scores"]))
 
@@ -1049,7 +1288,20 @@ def main(chk, args):
         "(raw, uncalibrated) are compared with the model op predictdf only; every other fold of the same run is "
         "held to the spec (formula, order, anchors, explicit error) with its own rows",
         "whether an estimator 'exposes a decision function' is what brew.py:462 tests: attribute access on "
-        "Model.estimator (the recording estimators are plain classes with or without that method)",
+        "Model.estimator (the recording estimators are plain classes with or without that method; second pass: also "
+        "the method supplied by __getattr__, stored on the instance only, or named on the class but raising "
+        "AttributeError on the instance as sklearn's available_if does -- the last one does not expose it)",
+        "second pass: scores scaled by 2^e (|e| <= 300) and shifted by a common integer offset stay exactly "
+        "representable together with all their differences and pairwise means, so (s - t)/(t - d) is still one "
+        "correctly rounded division and the real code must return bit-identical floats for s and for 2^e*(s + off); "
+        "integer-dtype scores are kept below 2^24 because qvalues.tdc casts them to float32 (C01: 'small-integer "
+        "dtype', GAPS-C01 G1-d)",
+        "an estimator returning float32: the fold's scores may be the float32 or the float64 rounding of the exact "
+        "quotient (the precision of the one division is not part of the property)",
+        "trained mode with an exception: the fold models are deep copies made inside brew; each registers itself "
+        "when fitted and is attributed to the fold whose training set (complement of the fold's test rows per "
+        "_split) it scored after its last fit; if that does not identify one model per fold the case is tallied "
+        "as training-failed as before",
     ]
     chk.finish(build, RULE, search=search, lc=lc,
                trusted_extra=["numpy min/median/mask indexing/hstack/argsort, pandas/pyarrow Parquet round trip, "
